@@ -99,11 +99,12 @@ def safe_impl(suite, case):
     import threading
 
     def on_alarm(signum, frame):
-        raise CaseTimeout(f'the implementation did not answer within {CASE_TIMEOUT_S} s')
+        raise CaseTimeout(f'the implementation did not answer within {limit} s')
     armed = threading.current_thread() is threading.main_thread()
+    limit = getattr(suite, 'case_timeout', CASE_TIMEOUT_S)
     if armed:
         old = signal.signal(signal.SIGALRM, on_alarm)
-        signal.alarm(CASE_TIMEOUT_S)
+        signal.alarm(limit)
     try:
         return suite.run_impl(case)
     except Exception as e:  # an exception the driver did not anticipate (a hang included) is itself an observable
